@@ -36,6 +36,9 @@ func valRepr(v []byte) string {
 	return fmt.Sprintf("%d:%x:%016x", len(v), v[:6], h.Sum64())
 }
 
+// valueErrorMarker replaces the line of an entry whose value fetch failed.
+const valueErrorMarker = "<value fetch failed>"
+
 func kvLine(kv *base.InternalKV) (string, error) {
 	v, _, err := kv.Value(nil)
 	if err != nil {
@@ -246,6 +249,38 @@ func readTable(bt *builtTable, data []byte, blobData []byte, rc readCtx, stopAtF
 			return nil, err
 		}
 		return scan(it, it.First, it.Next)
+	}) {
+		return out
+	}
+	// A reader that carries on after a value could not be fetched (a corrupt
+	// value block or blob block reports an error for that value only): every
+	// later value must again be either an error or the correct bytes. Each entry
+	// is read twice, as a caller that retries would.
+	if !add("scan-past-value-errors", func() (lines []string, err error) {
+		it, err := newIter(nil, nil)
+		if err != nil {
+			return nil, err
+		}
+		defer func() {
+			if cerr := it.Close(); err == nil {
+				err = cerr
+			}
+		}()
+		for kv := it.First(); kv != nil; kv = it.Next() {
+			l, verr := kvLine(kv)
+			if verr != nil {
+				l = valueErrorMarker
+			}
+			lines = append(lines, l)
+			if l2, verr2 := kvLine(kv); verr2 == nil && l2 != l {
+				lines = append(lines, "<second read of the same entry: "+l2+">")
+			}
+			if len(lines) > maxLines {
+				lines = append(lines, fmt.Sprintf("<runaway: more than %d entries>", maxLines))
+				return lines, nil
+			}
+		}
+		return lines, it.Error()
 	}) {
 		return out
 	}
